@@ -143,6 +143,10 @@ Section Model.
   | EvStart (c : cmds)                        (* Sound::on_start_processing with these commands pending *)
   | EvProcess (len : Z) (dt : T) (i : info T).  (* Sound::process on a buffer of [len] frames *)
 
+  (** the frame vector as the [Arc<[Frame]>] of a static sound *)
+  Definition audio_source (audio : list A) : source A :=
+    {| src_len := Z.of_nat (length audio); src_get := fun i => nth (Z.to_nat i) audio azero |}.
+
   (** ** the static sound: C04's core + the shell *)
   Record static := { x_core : ssound T A; x_shell : shell }.
 
